@@ -1,7 +1,8 @@
 """Type-directed generators of JSON texts (valid, with layout variation) and of malformed streams.
 Everything is driven by the `random.Random` instance passed in, so a case replays from (generator, seed, index)."""
 
-WS = [b"", b"", b"", b" ", b"  ", b"\n", b"\t", b"\r\n", b" " * 30, b" " * 63, b" " * 64, b" " * 65, b" \n\t\r" * 33]
+WS = [b"", b"", b"", b" ", b"  ", b"\n", b"\t", b"\r\n", b" " * 30, b" " * 63, b" " * 64, b" " * 65, b" \n\t\r" * 33,
+      b"  \r", b"  \t", b"  \n", b"\r\r\r", b"\t\t\t", b"\n\n\r\n", b" \r ", b"\r", b"\n\r\n\r\t"]
 
 KEYS = [b"a", b"b", b"c", b"key", b"", b"k" * 15, b"k" * 16, b"k" * 31, b"k" * 32, b"k" * 33, b"a\\nb", b"\\u0061", b"x\\\"y", b"[]{}:,",
         b"\\ud83d\\ude00", b"caf\xc3\xa9", b"a b", b"a\\u0000b", b"\\u0000", b"a\\u0000",
